@@ -44,11 +44,26 @@ type NodeExt struct {
 //	bound     — a new running pod is bound to node Node (Pod)
 //	unavail   — every offering of instance type IT becomes unavailable
 //	delnode   — node Node is marked for deletion
+//	nominate  — node Node is nominated for a pending pod (as the provisioner does at the end of a scheduling pass)
+//
+// Also: further changes delivered at the same moment, in order (one level deep).  A PodExt entry of the input whose
+// pod is a churn pod (eviction-cost inputs, terminal phase) is applied to that pod when it is created.
 type Churn struct {
 	Kind string     `json:"kind"`
 	Node string     `json:"node"`
 	IT   string     `json:"it"`
 	Pod  *world.Pod `json:"pod"`
+	Also []Churn    `json:"also,omitempty"`
+}
+
+// events lists the change and the changes delivered with it, in order.
+func (c *Churn) events() []Churn {
+	if c == nil {
+		return nil
+	}
+	first := *c
+	first.Also = nil
+	return append([]Churn{first}, c.Also...)
 }
 
 // PDBExt is a PodDisruptionBudget over the pods labelled app=<App> (namespace default).
@@ -76,6 +91,9 @@ type RunIn struct {
 	Churn  *Churn `json:"churn"`
 	// Expect (corpus witnesses): the verdict validation must reach, "released" | "rejected:scheduling" | …; "" = any
 	Expect string `json:"expect,omitempty"`
+	// ExpectReleased (corpus witnesses of c06.emptyvalidate): the nodes the released Emptiness command must remove
+	// (empty list = no command); nil = any
+	ExpectReleased *[]string `json:"expectReleased,omitempty"`
 }
 
 type CandOut struct {
@@ -129,4 +147,23 @@ type RunOut struct {
 	// multi-node method) for the rejected command's candidates on an identical fresh world; nil when it was released
 	// (then Cmd is that command) or could not be recomputed
 	Pre *CmdOut `json:"pre,omitempty"`
+	// EmptyVal (c06.emptyvalidate, only when Churned): what the Emptiness validator had to decide on
+	EmptyVal *EmptyValOut `json:"emptyVal,omitempty"`
+}
+
+// EmptyValOut: the inputs of EmptinessValidator.Validate for a command that reached validation, observed on identical
+// fresh worlds.
+type EmptyValOut struct {
+	// Pre: the candidates of the command handed to the validator = the candidates of the command the same
+	// ComputeCommands call releases on an identical world WITHOUT the change (sorted); PreKnown = false when that twin
+	// run released nothing
+	Pre      []string `json:"pre"`
+	PreKnown bool     `json:"preKnown"`
+	// Current: the nodes GetCandidates (filter Emptiness.ShouldDisrupt) returns on an identical world AFTER the change
+	// and the validation delay (sorted)
+	Current []string `json:"current"`
+	// Budgets: BuildDisruptionBudgetMapping(reason Empty) on that world
+	Budgets map[string]int64 `json:"budgets"`
+	// Nominated: the nodes of Pre that Cluster.IsNodeNominated reports on that world
+	Nominated []string `json:"nominated"`
 }
